@@ -702,7 +702,7 @@ fn mutate_tree(rng: &mut Rng, root: &mut Node) -> &'static str {
         }
         6 => {
             let i = rng.below(kids.len() as u64 + 1) as usize;
-            kids.insert(i, Node::Raw(rng.pick(&[&b"<!-- c -->"[..], b"<!---->", b"<!-- -- -->", b"<!-- > -->"]).to_vec()));
+            kids.insert(i, Node::Raw(rng.pick(&[&b"<!-- c -->"[..], b"<!---->", b"<!-- -- -->", b"<!-- > -->", b"<!-- a - b -->", b"<!-- a --->", b"<!----->", b"<!--a--b-->", b"<!-- -c- -->", b"<!--->-->"]).to_vec()));
             "ins-comment"
         }
         7 => {
